@@ -634,6 +634,23 @@ fn enumerate(u: &Unit, tier: Tier, ctx: &mut Ctx, tick: &dyn Fn()) {
                     }
                 }
             }
+            // long records as they are, with and without the M block, each followed by another record
+            for n in [300usize, 1030, 9000, 16384, 20000, 70000] {
+                for with_m in m_variants(ty) {
+                    emit(multi(&[3, n, 2]), with_m, 0, ctx);
+                }
+            }
+            if fam != Family::Multipoint {
+                // three long parts of more than 2^16 points in total; an empty part inside such a record; very many parts
+                for lens in [vec![30000usize, 30000, 6000], vec![20000, 25000, 21000], vec![30000, 0, 36000], vec![40000, 30000, 0, 4]] {
+                    for with_m in m_variants(ty) {
+                        emit(multi(&lens), with_m, 0, ctx);
+                    }
+                }
+                for np in [16384usize, 20000] {
+                    emit(multi(&vec![2; np]), true, 0, ctx);
+                }
+            }
             if fam != Family::Multipoint {
                 let ls = [260usize, 300, 1030, 16390];
                 for a in ls {
@@ -838,7 +855,7 @@ pub fn check(tier: Tier) -> i32 {
             tier,
             level: "model_checking",
             engine: "E2 enumerator over files produced by the independent RefCodec encoder, decoded by the real ShapeReader (read, iter_shapes, read_as)",
-            rule: "14 file types x {n=0; n=1 over every record variant (part structures with 0-3 parts of 0-3 vertices incl. empty first parts and zero parts, M block present/absent, PointZ 24/32 bytes, 4 stored-box variants, null record) x 5 numbering variants x 4 trailing variants; n=2,3 all ordered tuples over 6 representative variants x numbering x trailing; deviation sets of size <= d over every coordinate and stored-box field from the full float alphabet (NaNs included); EVERY part length from 2 to the size bound for one type per family (with and without the M block); every file of >= 2 records again through sources returning at most 1 resp. 5 bytes per read, and (files of 3 records) with the iterator driven through 14 programs of std adaptors (nth, skip, step_by, last, count) fresh and after one next(); a special measure / Z at the start, middle, end of a part of 300..20000 points, two long parts of every ordered pair over {260, 300, 1030, 16390} with and without the M block; records of more than 10 MiB (a part of 700001 points; thorough also 1400001 and three more types) alone, last of two, and followed by a null record}; distinct = hash of the file bytes; non-trivial = foreign layout feature, deviation or >= 2 records",
+            rule: "14 file types x {n=0; n=1 over every record variant (part structures with 0-3 parts of 0-3 vertices incl. empty first parts and zero parts, M block present/absent, PointZ 24/32 bytes, 4 stored-box variants, null record) x 5 numbering variants x 4 trailing variants; n=2,3 all ordered tuples over 6 representative variants x numbering x trailing; deviation sets of size <= d over every coordinate and stored-box field from the full float alphabet (NaNs included); EVERY part length from 2 to the size bound for one type per family (with and without the M block); every file of >= 2 records again through sources returning at most 1 resp. 5 bytes per read, and (files of 3 records) with the iterator driven through 14 programs of std adaptors (nth, skip, step_by, last, count) fresh and after one next(); a special measure / Z at the start, middle, end of a part of 300..20000 points, two long parts of every ordered pair over {260, 300, 1030, 16390} with and without the M block, long records with and without the M block followed by another record, three long parts of more than 2^16 points, an empty part inside such a record, 16384 / 20000 parts; records of more than 10 MiB (a part of 700001 points; thorough also 1400001 and three more types) alone, last of two, and followed by a null record}; distinct = hash of the file bytes; non-trivial = foreign layout feature, deviation or >= 2 records",
             bounds: json!({"max_parts": 3, "max_part_len": 3, "max_records": 4, "deviation_bound": tier.pick(1, 2), "alphabet": f_m().len()}),
             exhaustive: true,
             assumptions: vec!["ring roles and the M range of a box whose M block is absent are not in the statement and are not compared".into()],
